@@ -302,6 +302,15 @@ Lemma gen_serializer_effects :
   ias15_N3_values = ["3 * r->N"; "3 * r->ri_mercurius.encounter_N"; "3 * r->ri_trace.encounter_N"].
 Proof. vm_compute. repeat split. Qed.
 
+(* since /repo c5e34ac: both public ways to change the particle number (add, remove) forget the IAS15 arrays when IAS15 is the integrator
+   (N_allocated := 0); the third writer of r->N, reb_simulation_add_local_store, is the body of add and of the tree re-insertion (which
+   restores the number it took away); reb_simulation_remove_all_particles leaves nothing to integrate *)
+Lemma gen_ias15_reset_on_particle_change :
+  particle_number_writers = ["reb_simulation_add_local_store"; "reb_simulation_remove_all_particles"; "reb_simulation_remove_particle"] /\
+  ias15_reset_on_particle_change = ["reb_simulation_add_local"; "reb_simulation_remove_particle"] /\
+  ias15_reset_N_allocated_values = ["0"].
+Proof. vm_compute. repeat split. Qed.
+
 (* process-level hygiene of the server thread: no exit of the request loop closes a connection descriptor twice
    (fclose(fdopen(fd)) followed by close(fd) would close a descriptor that another thread may have just opened; fixed in /repo bc586ce) *)
 Lemma gen_server_single_close : server_double_close_sites = 0.
